@@ -89,6 +89,15 @@ def main():
         with open(os.path.join(sdir, "result.json"), "w") as f:
             json.dump(res, f, indent=1)
         rows.append(res)
+        benign = meta.get("kind") == "benign"
+        res["kind"] = "benign" if benign else "breaking"
+        with open(os.path.join(sdir, "result.json"), "w") as f:
+            json.dump(res, f, indent=1)
+        if benign:
+            print(f"{name:34s} tests={'pass' if res.get('tests_pass_with_change') else 'FAIL'} (benign) "
+                  + " ".join(f"{p}:{'quiet' if r['exit'] == 0 else 'ALARM rc=' + str(r['exit'])}({r['seconds']}s) {r['first'][:160] if r['exit'] else ''}"
+                             for p, r in res.get("checks", {}).items()), flush=True)
+            continue
         print(f"{name:34s} tests={'pass' if res.get('tests_pass_with_change') else 'FAIL'} demo(with/without)="
               f"{res.get('demo_exit_with_change')}/{res.get('demo_exit_without_change')} "
               + " ".join(f"{p}:{'DETECTED' if r['exit'] == 1 else 'MISSED rc=' + str(r['exit'])}({r['seconds']}s)"
